@@ -142,6 +142,26 @@ Theorem C17_remap_first_wins : forall m key ml,
 Proof. exact map_find_spec. Qed.
 Print Assumptions C17_remap_first_wins.
 
+(* ... whatever follows it; and the de-duplicated lookup table (KeyMap.col_map)
+   answers every key exactly like first-wins on map_list: a repeated key changes
+   neither its own answer nor the answer of any other key.  The keys 1 and "1"
+   are the same key. *)
+Theorem C17_remap_first_entry : forall m key pre row post,
+  Forall (fun row' => row_key m row' <> key) pre -> row_key m row = key ->
+  map_find m key (pre ++ row :: post) = Some (skipn m row).
+Proof. exact map_find_first. Qed.
+Print Assumptions C17_remap_first_entry.
+
+Theorem C17_remap_dedup_table : forall m key ml,
+  map_find m key (dedup_keys m [] ml) = map_find m key ml.
+Proof. exact (fun m key ml => map_find_dedup m key ml [] (fun s H => match H with end)). Qed.
+Print Assumptions C17_remap_dedup_table.
+
+Theorem C17_remap_numeric_text_key : forall z rest,
+  row_key 1 (PNum z :: rest) = row_key 1 (PStr (str_of_Z z) :: rest).
+Proof. exact row_key_numeric_text. Qed.
+Print Assumptions C17_remap_numeric_text_key.
+
 Theorem C17_remap_integer_sources : forall src dst ml ig ints t t',
   do_remap_columns src dst ml ig ints t = Ok t' -> do_remap_columns src dst ml ig [] t = Ok t'.
 Proof. exact remap_integer_sources_irrelevant. Qed.
